@@ -82,6 +82,18 @@ CHECKS = {
         note='Trusted: z3; the pure-Python codec models sx/pycodecs.py standing in for the C codecs (validated '
              'differentially); getstate/setstate and the stream classes are outside.',
         design='3 C07'),
+    'C08': dict(
+        text='Ladder: import chains of depth <= 2 (3 thorough) over a virtual fetcher; override, transport charset, content '
+             'marker (BOM / @charset / none), bytes or text delivery and fetcher result (data / None / (None, None)) are '
+             'solver-chosen per edge over four encodings that decode a probe to four different texts; every imported sheet '
+             'must report the encoding the documented ladder gives, hold the probe decoded with exactly that encoding, and '
+             'sheet.encoding must equal its @charset rule. Lossless: a character that is a solver variable (all of Unicode) at '
+             'each of 17 content positions x target encodings ascii / iso-8859-1 / utf-8 / utf-16 set through sheet.encoding: '
+             'cssText must decode in that encoding and decoding + reparsing (text and bytes interface) must give the same DOM '
+             'projection and encoding - z3 validity over the character on the codec models.',
+        note='Ladder jobs are finite-choice (solver-driven enumeration, bounded number of non-default choices); lossless jobs '
+             'are solver-quantified. Trusted: z3, sx/pycodecs.py codec models (validated against the real codecs by C07 replays).',
+        design='3 C08'),
     'C09': dict(
         text='Inductive step from an arbitrary valid state: the rule list holds up to N rule objects '
              'whose kind codes are z3 variables constrained only by the invariant the property '
